@@ -39,7 +39,8 @@ RULE = ('random call graphs: 1-5 levels, 1-2 callables per level drawn from func
         'from Python; every 4th case interprets ANOTHER model (same loader, same process) in the middle of its invocations; '
         'every 10th case invokes a function that fails half way between the others and repeats them after it; every 50th '
         'case (i % 50 == 37) names a constant / enumeration like a function in another letter case (must work); '
-        'parameters whose names differ in letter case only; every 2nd case adds callables of different kinds / external '
+        'parameters whose names differ in letter case only; parameters named like the interpreter\'s own arguments (label, '
+        'action, domain, inst, metaclass, kwargs ...); every 2nd case adds callables of different kinds / external '
         'entities / classes that share ONE name and have different bodies (function, EE1::, EE2::, A::, B::), invoked in '
         'shuffled order, each twice, and from one OAL caller; every other case adds a callable with a NON-VOID return type '
         'whose executed path has no value return (falls off / bare return / no return statement), invoked with both '
@@ -71,6 +72,8 @@ SCHEMA = {
 }
 ASSOC = ('R1', 'B', 'A_ID', 'A', 'ID')
 ENUMERATORS = ['red', 'green', 'blue', 'cyan', 'black']
+PY_NAMES = ['label', 'action', 'domain', 'inst', 'metaclass', 'metamodel', 'm', 'args', 'kwargs', 'name', 'node', 'instance',
+            'attribute_name', 'w', 'root', 'value', 'fn', 'key']
 _CTX = None
 _xtuml = None
 _ooaofooa = None
@@ -235,6 +238,12 @@ def gen_model(rng, max_levels, body_stmts):
                 # two parameters whose names differ in letter case only are two parameters
                 pn, pt = r.choice(params)
                 params.append((pn.upper(), r.choice(['integer', pt])))
+            if kind != 'derived' and r.random() < 0.3:
+                # a parameter named like an argument / local of the interpreter's own functions: parameters are the
+                # MODEL's names, whatever the implementation calls its own
+                pn = r.choice(PY_NAMES)
+                if pn not in [n for n, _ in params]:
+                    params.append((pn, r.choice(['integer', 'integer', 'string', 'boolean'])))
             recursive = kind != 'derived' and (mutual or r.random() < 0.25)
             if recursive:
                 params.append(('cnt', 'integer'))
@@ -899,7 +908,7 @@ def add_clash(rng, callables, enums, consts, same=True):
 
 
 def generate(ctx):
-    n = ctx.pick(800, 15000)
+    n = ctx.pick(600, 15000)
     max_levels = ctx.pick(4, 5)
     body_stmts = ctx.pick(7, 12)
     batch = []
